@@ -179,6 +179,7 @@ type Replay struct {
 	WeakBits   int                     `json:"hash_bits_kept,omitempty"`
 	SimProcs   int                     `json:"simulated_gomaxprocs,omitempty"`
 	SimEpoch   int64                   `json:"simulated_epoch_ns,omitempty"`
+	StepNS     int64                   `json:"simulated_ns_per_step,omitempty"`
 	Readable   []string                `json:"readable"`
 	HowTo      string                  `json:"how_to_replay"`
 }
@@ -287,6 +288,9 @@ var curSimProcs int
 
 // curSimEpoch: likewise the simulated wall-clock epoch of that process.
 var curSimEpoch int64
+
+// curStepNS: likewise the simulated nanoseconds per step.
+var curStepNS int64
 
 func runExplicit(e *Env, session []workerlib.ExplicitRun) *ProcResult {
 	ses := &workerlib.Session{Mode: "explicit", Explicit: session, Variant: curVariant}
@@ -676,8 +680,10 @@ func explicitPrefix(e *Env, fv *foundViolation) []workerlib.ExplicitRun {
 		if to := ses.From + fv.V.RunIndex/2 + 1; to < ses.To {
 			ses.To = to
 		}
+	case "chain":
+		ses.To = (fv.V.RunIndex + 1) * 400
 	case "soak":
-		ses.Runs = (fv.V.RunIndex + 1) * 5000
+		// (burst runs come first; the whole session up to the failing run is replayed as dumped)
 	case "longpairs", "solo":
 		if to := ses.From + fv.V.RunIndex + 1; to < ses.To {
 			ses.To = to
@@ -704,7 +710,8 @@ func processViolation(e *Env, c *Check, fv *foundViolation, limit time.Duration)
 	curVariant = fv.Proc.Session.Variant
 	curSimProcs = fv.Proc.Session.SimProcs
 	curSimEpoch = fv.Proc.Session.SimEpoch
-	defer func() { curVariant = ""; curSimProcs = 0; curSimEpoch = 0 }()
+	curStepNS = fv.Proc.Session.StepNS
+	defer func() { curVariant = ""; curSimProcs = 0; curSimEpoch = 0; curStepNS = 0 }()
 	sig := violSig(fv.V)
 	pickRaceSig := func(pr *ProcResult) string {
 		sg, _, _ := sigsOf(e, pr)
@@ -795,6 +802,7 @@ func processViolation(e *Env, c *Check, fv *foundViolation, limit time.Duration)
 		TreeDigest: e.TreeDig, SiteDigest: e.Report.SiteDigest, Session: small, HowTo: "cd /verif && ./run C05 --replay <this file>"}
 	rp.SimProcs = curSimProcs
 	rp.SimEpoch = curSimEpoch
+	rp.StepNS = curStepNS
 	if v := e.Variants[curVariant]; v != nil {
 		rp.Variant = v.Name
 		rp.Knobs = v.Knobs
@@ -842,7 +850,7 @@ func processViolation(e *Env, c *Check, fv *foundViolation, limit time.Duration)
 		for _, k := range rp.Knobs {
 			ks = append(ks, fmt.Sprintf("%s=%d->2 (%s:%d)", k.Name, k.Value, k.File, k.Line))
 		}
-		rp.Summary += " [configuration fault: capacity constants shrunk: " + strings.Join(ks, ", ") + "; sequential results of the whole corpus are unchanged by the shrink]"
+		rp.Summary += " [configuration fault: capacity constants shrunk: " + strings.Join(ks, ", ") + "; the shrink leaves the result of a single call in a fresh process unchanged]"
 	}
 	if len(rp.WeakHashes) > 0 {
 		var hs []string
